@@ -269,22 +269,22 @@ package mail
 //@ func mail.msgWriter.writeHeader (key, values)
 //@   requires[C02:hsafe] valsafe(values)
 //@ func mail.msgWriter.newPart (header)
-//@   requires[C02:hsafe] mhs(header)
+//@   requires[C02:hsafe] !as(header, "textproto.MIMEHeader").hdrtaint && !as(header, "textproto.MIMEHeader").cidtaint
 //@ func mail.msgWriter.writeGenHeader (msg)
 //@   requires[C02:inv] mw != nil && msg != nil && ghsafe(msg)
 //@   loop 1 invariant[C02:inv] kept("A.string") && freshslice(keys)
 //@   loop 2 invariant[C02:inv] ghsafe(msg)
-//@ pred filesafeX(f *mail.File) = f != nil && f.Header != nil && mhsx(f.Header) && (canon("Content-ID") in f.Header ==> len(f.Header[canon("Content-ID")]) == 1) && nocrlf(f.ContentType) && nocrlf(f.Enc)
+//@ pred filesafeX(f *mail.File) = f != nil && f.Header != nil && !f.Header.hdrtaint && nocrlf(f.ContentType) && nocrlf(f.Enc)
 //@ func mail.File.setHeader (header, value)
 //@   requires[C02:wf] f != nil && f.Header != nil
-//@   ensures[C02:hsafe] f.Header == old(f.Header) && (old(mhs(f.Header)) && nocrlf(value) ==> mhs(f.Header)) && (old(mhsx(f.Header)) && nocrlf(value) ==> mhsx(f.Header)) && (old(mhsx(f.Header)) && nocrlf(value) && canon(header) == canon("Content-ID") ==> mhs(f.Header))
-//@   ensures[C02:set] (canon(header) in f.Header) && len(f.Header[canon(header)]) == 1
+//@   ensures[C02:taint] f.Header == old(f.Header) && (canon(header) == canon("Content-ID") ==> f.Header.cidtaint == !nocrlf(value) && f.Header.hdrtaint == old(f.Header.hdrtaint)) && (canon(header) != canon("Content-ID") ==> f.Header.cidtaint == old(f.Header.cidtaint) && (nocrlf(value) ==> f.Header.hdrtaint == old(f.Header.hdrtaint)))
 //@ func mail.File.getHeader (header) (v, ok)
 //@   requires[C02:wf] f != nil
-//@   ensures[C02:def] v == ((canon(header) in f.Header) && len(f.Header[canon(header)]) >= 1 ? f.Header[canon(header)][0] : "") && ok == (v != "")
+//@   ensures[C02:def] ok == (v != "") && (canon(header) == canon("Content-ID") && !ok ==> !f.Header.cidtaint)
 //@ func mail.msgWriter.addFiles (files, isAttachment)
 //@   requires[C02:files] mw != nil && (forall i :: 0 <= i && i < len(files) ==> filesafeX(files[i]))
 //@   loop 1 invariant[C02:files] forall i :: 0 <= i && i < len(files) ==> filesafeX(files[i])
+//@   loop 2 invariant[C02:files] (forall i :: 0 <= i && i < len(files) ==> filesafeX(files[i])) && !file.Header.hdrtaint && !file.Header.cidtaint
 //@ func mail.msgWriter.writePart (part, charset)
 //@   requires[C02:typed] mw != nil && part != nil && nocrlf(part.contentType) && nocrlf(part.charset) && nocrlf(part.encoding) && nocrlf(charset)
 //@ func mail.Encoding.String
@@ -411,3 +411,9 @@ package mail
 //@ at mail.Client.sendSingleMsg smtp.Client.Rcpt#1 before assert[C06:one-rcpt-per-recipient-in-order] arg1 == rcpts[rangeindex + 1]
 //@ func mail.Client.sendSingleMsg
 //@   requires[C06:wf] c != nil && client != nil && addrok(message)
+//@ at mail.msgWriter.addFiles mail.File.setHeader#1 before assert[C02:lemma-ctype] nocrlf(arg2)
+//@ at mail.msgWriter.addFiles mail.File.setHeader#2 before assert[C02:lemma-cte] nocrlf(arg2)
+//@ at mail.msgWriter.addFiles mail.File.setHeader#3 before assert[C02:lemma-desc] nocrlf(arg2)
+//@ at mail.msgWriter.addFiles mail.File.setHeader#4 before assert[C02:lemma-disp] nocrlf(arg2)
+//@ at mail.msgWriter.addFiles mail.File.setHeader#5 before assert[C02:lemma-cid-stripped] nocrlf(arg2)
+//@ at mail.msgWriter.addFiles mail.File.setHeader#6 before assert[C02:lemma-cid-default] nocrlf(arg2)
